@@ -1407,6 +1407,7 @@ func (c *connection) Join(conn net.Conn, id string, dial gen.NetworkDial, tail [
 	}
 	c.pool = append(c.pool, pi)
 	c.pool_mutex.Unlock()
+	lib.VerifPoint("conn.join", conn)
 
 	c.wg.Add(1)
 	go func() {
@@ -1503,6 +1504,7 @@ func (c *connection) serve(conn net.Conn, tail []byte) {
 			return
 		}
 
+		lib.VerifPoint("recv.frame", conn)
 		if buf.B[0] != protoMagic {
 			c.log.Error("recevied malformed packet from %s (incorrect proto)", conn.RemoteAddr())
 			lib.ReleaseBuffer(buf)
@@ -1535,7 +1537,9 @@ func (c *connection) serve(conn net.Conn, tail []byte) {
 		queue := c.recvQueues[qN]
 		atomic.AddInt64(&c.allocatedInQueues, int64(buf.Cap()))
 
+		lib.VerifPoint("recv.push", queue)
 		queue.Push(buf)
+		lib.VerifPoint("recv.pushed", queue)
 		if queue.Lock() {
 			go c.handleRecvQueue(queue)
 		}
@@ -1563,7 +1567,9 @@ func (c *connection) handleRecvQueue(q lib.QueueMPSC) {
 		v, ok := q.Pop()
 		if ok == false {
 			// no more items in the queue, unlock it
+			lib.VerifPoint("recv.unlock", q)
 			q.Unlock()
+			lib.VerifPoint("recv.recheck", q)
 
 			// but check the queue before the exit this goroutine
 			if i := q.Item(); i == nil {
@@ -1571,6 +1577,7 @@ func (c *connection) handleRecvQueue(q lib.QueueMPSC) {
 			}
 
 			// there is something in the queue, try to lock it back
+			lib.VerifPoint("recv.relock", q)
 			if locked := q.Lock(); locked == false {
 				// another goroutine is started
 				return
@@ -2900,6 +2907,7 @@ func (c *connection) send(buf *lib.Buffer, order uint8, compression gen.Compress
 	}
 
 	var pi *pool_item
+	lib.VerifPoint("send.pick", c)
 	c.pool_mutex.RLock()
 	l := len(c.pool)
 	if l == 0 {
